@@ -108,6 +108,10 @@ Inductive typed_result :=
 
 (* The request each typed method issues is the request value itself (read_coils(a, q) issues
    ReqReadCoils a q, ...); [typed] post-processes the reply the way the method does. *)
+(* expect_echo: a write reply must echo the request *)
+Definition echo (same : bool) : typed_result :=
+  if same then TRUnit else TRErr (CRTransport KInvalidData).
+
 Definition typed_post (req : request) (r : response) : typed_result :=
   match req, r with
   | ReqReadCoils _ q, RspReadCoils bs
@@ -117,11 +121,11 @@ Definition typed_post (req : request) (r : response) : typed_result :=
   | ReqReadHoldingRegisters _ q, RspReadHoldingRegisters ws
   | ReqReadWriteMultipleRegisters _ q _ _, RspReadWriteMultipleRegisters ws =>
       if len ws =? q then TRWords ws else TRErr (CRTransport KInvalidData)
-  | ReqWriteSingleCoil _ _, RspWriteSingleCoil _ _
-  | ReqWriteMultipleCoils _ _, RspWriteMultipleCoils _ _
-  | ReqWriteSingleRegister _ _, RspWriteSingleRegister _ _
-  | ReqWriteMultipleRegisters _ _, RspWriteMultipleRegisters _ _
-  | ReqMaskWriteRegister _ _ _, RspMaskWriteRegister _ _ _ => TRUnit
+  | ReqWriteSingleCoil a b, RspWriteSingleCoil a' b' => echo ((a =? a') && Bool.eqb b b')
+  | ReqWriteMultipleCoils a bs, RspWriteMultipleCoils a' q => echo ((a =? a') && (len bs =? q))
+  | ReqWriteSingleRegister a w, RspWriteSingleRegister a' w' => echo ((a =? a') && (w =? w'))
+  | ReqWriteMultipleRegisters a ws, RspWriteMultipleRegisters a' q => echo ((a =? a') && (len ws =? q))
+  | ReqMaskWriteRegister a x y, RspMaskWriteRegister a' x' y' => echo ((a =? a') && (x =? x') && (y =? y'))
   | _, _ => TRErr CRPanic      (* unreachable!("call() should reject mismatching responses") *)
   end.
 
